@@ -556,18 +556,41 @@ def exportParts (want : Log String String) (implOut : Sexp) : Bool × Bool × Bo
     let rawOk := match (tagged? "raw" raw).bind (·.mapM parseStep) with
       | some rawSteps => rawSteps.all namesNodup && logEqAsMaps rawSteps want
       | none => false
-    let jOk := match (parseCLog "json" js).bind decompress with
-      | some dj => logEqAsMaps dj want
+    -- the exports are judged by what they DECODE to (keys through the export's own name table),
+    -- plus: the name table has no duplicates, every key used is in range (`decompress` succeeds)
+    let decoded (tag : String) (x : Sexp) : Bool := match parseCLog tag x with
+      | some c => c.names.eraseDups.length == c.names.length &&
+          (match decompress c with
+           | some d => logEqAsMaps d want
+           | none => false)
       | none => false
-    let cOk := match (parseCLog "cbor" cb).bind decompress with
-      | some dc => logEqAsMaps dc want
-      | none => false
+    let jOk := decoded "json" js
+    let cOk := decoded "cbor" cb
     (rawOk, jOk, cOk)
   | _ => (false, false, false)
 
 def exportsMatch (want : Log String String) (implOut : Sexp) : Bool :=
   let p := exportParts want implOut
   p.1 && p.2.1 && p.2.2
+
+/-- The compressed export as a reader sees it: decoded through its own name table, every step as a
+sorted name → value list; key numbering and name-table order are representation, not content. -/
+def canonCLog (tag : String) (x : Sexp) : Sexp :=
+  match parseCLog tag x with
+  | some c =>
+    (match decompress c with
+     | some d => .list [.atom tag, .list [.atom "names-nodup", ofBool (c.names.eraseDups.length == c.names.length)],
+                        .list (.atom "steps" :: d.map fun st => stepSexp (canonStep st))]
+     | none => .list [.atom tag, .atom "key-out-of-range"])
+  | none => x
+
+/-- Canonical form of a case output for the model ⇄ implementation comparison (K). -/
+def canonOut : Sexp → Sexp
+  | .list [.atom "res", .atom "ok", raw, js, cb] =>
+    .list [.atom "res", .atom "ok", raw, canonCLog "json" js, canonCLog "cbor" cb]
+  | .list [.atom "res", .atom "ok", wit, raw, js, cb] =>
+    .list [.atom "res", .atom "ok", wit, raw, canonCLog "json" js, canonCLog "cbor" cb]
+  | other => other
 
 def failSexp : Fail → Sexp
   | .err => .atom "err" | .panic => .atom "panic" | .timeout => .atom "timeout"
